@@ -51,7 +51,7 @@ func run() (status int) {
 		// generator: prints anchors_sig.go for the anchors listed (one "pkg|name" per line) in the file named
 		w := Load(*repo, false)
 		b, _ := os.ReadFile(os.Getenv("SHOVELCHECK_ANCHORSIGS"))
-		fmt.Println("// Code generated from /repo by SHOVELCHECK_ANCHORSIGS; DO NOT EDIT.\n\npackage main\n")
+		fmt.Print("// Code generated from /repo by SHOVELCHECK_ANCHORSIGS; DO NOT EDIT.\n\npackage main\n\n")
 		fmt.Println("// anchorSigs: receiver and signature (without parameter names) of every anchor function on the reference\n// tree: used only to find an anchor again after it was renamed (world.go fnBySignature).\nvar anchorSigs = map[string]string{")
 		for _, l := range strings.Split(strings.TrimSpace(string(b)), "\n") {
 			parts := strings.SplitN(l, "|", 2)
